@@ -166,3 +166,68 @@ def away_scripts(rng, n):
         sf = len(lines)
         out.append(("away-%d" % i, lines + settle_lines(meta), sf))
     return out
+
+
+def marker_scripts(rng, n):
+    """implementation only (the Layer 1 model has no command markers): some client entities carry command markers whose write
+    functions keep the server's value in a shadow component (one of them a history marker that is also handed values older
+    than the entity's confirmed tick).  Whatever the markers do for the marked entities, every OTHER entity must be written by
+    the default functions, and the marked ones must show the server's value of their confirmed tick: new entities spawned
+    right after a marked entity's record, removals / insertions on marked and unmarked entities, mutate messages delivered
+    out of order and several per client frame"""
+    out = []
+    for i in range(n):
+        ncl = rng.choice([1, 2])
+        lines = ["cfg policy=%s auth=none track=%d nclients=%d timeout=10000 markers=1" % (rng.choice(["all", "all", "black"]), rng.randrange(2), ncl), "start", "sframe 0 10"]
+        for c in range(ncl):
+            lines.append("connect %d 1200" % c)
+        nent = rng.randrange(2, 5)
+        comps = {}
+        for e in range(1, nent + 1):
+            comps[e] = {0, 1} if rng.random() < 0.8 else {rng.choice([0, 1])}
+            lines.append("sop spawn %d 1 %s" % (e, " ".join("%d=%d" % (k, rng.randrange(50)) for k in sorted(comps[e]))))
+        lines.append("sframe 1 16")
+        for c in range(ncl):
+            lines += ["deliver %d s2c 0 all" % c, "cframe %d" % c, "deliver %d c2s 0 all" % c]
+        marked = rng.sample(sorted(comps), rng.randrange(1, min(3, nent) + 1))
+        for e in marked:
+            lines.append("cop 0 mark %d %s" % (e, rng.choice(["a", "b", "ab", "ab"])))
+        lines.append("cframe 0")
+        nxt = nent + 1
+        val = 100
+        for _ in range(rng.randrange(4, 10)):
+            for _ in range(rng.randrange(1, 4)):
+                r = rng.random()
+                e = rng.choice(sorted(comps))
+                val += 1
+                if r < 0.5 and comps[e]:
+                    lines.append("sop mutate %d %d=%d" % (e, rng.choice(sorted(comps[e])), val))
+                elif r < 0.65:
+                    comps[nxt] = {0, 1} if rng.random() < 0.7 else {0}
+                    lines.append("sop spawn %d 1 %s" % (nxt, " ".join("%d=%d" % (k, val) for k in sorted(comps[nxt]))))
+                    nxt += 1
+                elif r < 0.8 and comps[e]:
+                    k = rng.choice(sorted(comps[e]))
+                    comps[e].discard(k)
+                    lines.append("sop remove %d %d" % (e, k))
+                elif r < 0.95:
+                    k = rng.choice([0, 1])
+                    comps[e].add(k)
+                    lines.append("sop insert %d %d=%d" % (e, k, val))
+            lines.append("sframe 1 16")
+            for c in range(ncl):
+                d = rng.random()
+                if d < 0.35:
+                    continue                                                  # nothing delivered: messages pile up
+                lines.append("deliver %d s2c 0 all" % c)
+                if d < 0.6:
+                    lines.append("deliver %d s2c 1 last" % c)                 # the newest mutate message first ...
+                    lines.append("cframe %d" % c)
+                    lines.append("deliver %d s2c 1 all" % c)                  # ... then the older ones
+                else:
+                    lines.append("deliver %d s2c 1 all" % c)                  # several mutate messages in one client frame
+                lines += ["cframe %d" % c, "deliver %d c2s 0 all" % c]
+        meta = dict(connected=list(range(ncl)), events=False)
+        sf = len(lines)
+        out.append(("markers-%d" % i, lines + settle_lines(meta), sf))
+    return out
